@@ -281,4 +281,20 @@ def run(ctx):
         run.instance(R8, {"fn": "lock_tx_context / map_wallet_outputs", "obligation": "a reservation keeps the output's link to the entry that created it, or reserved outputs are revert candidates too", "reservation re-points tx_log_entry": relinked, "candidate statuses": sorted(lits)}, held=held)
         if not held:
             run.finding(Finding(R8, lk8.id, "reserving an output re-points its tx_log_entry to the pending send and only outputs that were Unspent are examined for a revert: a payment whose output is reserved when its block is reorganised away is never reported reverted (the output is marked Spent, the entry stays confirmed)", site=lk8.loc()))
+    R9 = "C18.R9"
+    run.rule(R9, "the scan the owner asks for starts from a refresh of all the account's records (update_outputs(.., update_all = true)): that refresh is the only place where confirmed outputs are compared with the node, i.e. where a reorganised-away payment can be noticed", floor=1)
+    osc = ctx.fn(c.LW + "api_impl::owner::scan")
+    if osc is None:
+        run.error("C18.R9: api_impl::owner::scan not found")
+    else:
+        UO9 = c.LW + "api_impl::owner::update_outputs"
+        scs = {b for b, _t in cfg.find_calls(osc, c.LW + "internal::scan::scan")}
+        full = set()
+        for ub, ut in cfg.find_calls(osc, UO9):
+            if vf.const_of_operand(osc, ut["a"][2]) == "1":
+                full |= cfg.call_guard(osc, ub).ok
+        held = bool(scs) and bool(full) and cfg.must_pass(osc, full, scs)[0]
+        run.instance(R9, {"fn": "owner::scan", "obligation": "scan::scan only after update_outputs(.., true) Ok (the constant true, not a condition on the start height)"}, held=held)
+        if not held:
+            run.finding(Finding(R9, osc.id, "the refresh in front of a scan no longer covers all records on every path: confirmed outputs that a reorganisation removed are not compared with the node, the payment stays confirmed and spendable", site=osc.loc()))
     run.not_decided += ["fork depths, repeated flip-flops, what a scan reports after a reorganisation (histories over a chain)"]
